@@ -123,10 +123,16 @@ func runScenarios(tier string, noBlocked bool) []*Scenario {
 		limit = 200
 	}
 	scs := buildScenarios(catalogue(), alts, limit)
+	// a running step that ignores cancellation is stopped by a producer and has to be force-closed
+	for _, p := range tagPrograms() {
+		if p.Name == "stopforce" || p.Name == "stopforce2" {
+			scs = append(scs, buildScenarios([]*Program{p}, []stepAlt{altsBasic[0], altsMore[0], altsMore[1]}, 40)...)
+		}
+	}
 	var out []*Scenario
 	for _, s := range scs {
 		s.Ref = evalProgram(s.Prog, s.Script, s.Input)
-		if noBlocked && s.Ref.ResultID == "" && !s.Ref.ResultErr {
+		if noBlocked && ((s.Ref.ResultID == "" && !s.Ref.ResultErr) || s.Ref.MayHang) {
 			continue // the run legitimately waits for a never-ending step; covered by the cancel driver
 		}
 		out = append(out, s)
@@ -267,7 +273,7 @@ func init() {
 						s := &Scenario{Class: p.Name, Prog: p, Script: sc, Input: in}
 						s.Name = p.Name + "/" + vecName(sc) + "/" + canonStr(in)
 						s.Ref = evalProgram(p, sc, in)
-						if s.Ref.ResultID == "" && !s.Ref.ResultErr {
+						if (s.Ref.ResultID == "" && !s.Ref.ResultErr) || s.Ref.MayHang {
 							continue
 						}
 						us = append(us, scenarioUnit(s, exploreOpts{bound: tierBound(tier, 1, 2), menu: menuTSME, cancelMS: -1}, oracleC02, oracleC03, oracleC04, oracleC01))
